@@ -409,6 +409,20 @@ func (c *Case) ModelLine(id string, v Variant) string {
 	for _, r := range ImportNames {
 		sb.WriteString(" " + Esc(r))
 	}
+	// every identifier of the user's files is out of reach for a made-up name (/repo 73e54da, F135); the identifiers
+	// that can look like a made-up name are the names of the calls themselves
+	seen := map[string]bool{}
+	for _, r := range c.Reserved {
+		seen[r] = true
+	}
+	for _, f := range c.Files {
+		for _, call := range f.Calls {
+			if !seen[call.Name] {
+				seen[call.Name] = true
+				sb.WriteString(" " + Esc(call.Name))
+			}
+		}
+	}
 	sb.WriteString(") (plugins")
 	for _, p := range c.Plugins {
 		fmt.Fprintf(&sb, " (%s %s)", Esc(p.Prefix), p.Kind)
